@@ -246,3 +246,53 @@ impl embedded_io::Read for SharedReader<'_> {
         embedded_io::Read::read(&mut *self.0.borrow_mut(), buf)
     }
 }
+
+/// A reader that reports one transient-looking error (`WouldBlock`, `TimedOut`, ...) when its position reaches
+/// `fail_at`, after having delivered everything before it in pieces of at most `chunk` bytes, and works again afterwards.
+pub struct TransientReader<'a> {
+    pub data: &'a [u8],
+    pub pos: usize,
+    pub chunk: usize,
+    pub fail_at: usize,
+    pub kind: io::ErrorKind,
+    pub fired: bool,
+}
+
+impl<'a> TransientReader<'a> {
+    pub fn new(data: &'a [u8], chunk: usize, fail_at: usize, kind: io::ErrorKind) -> Self {
+        TransientReader { data, pos: 0, chunk: chunk.max(1), fail_at, kind, fired: false }
+    }
+    fn step(&mut self, buf: &mut [u8]) -> Result<usize, ()> {
+        if buf.is_empty() {
+            return Ok(0);
+        }
+        if self.pos == self.fail_at && !self.fired {
+            self.fired = true;
+            return Err(());
+        }
+        let mut n = buf.len().min(self.chunk).min(self.data.len() - self.pos);
+        if !self.fired && self.pos < self.fail_at {
+            n = n.min(self.fail_at - self.pos);
+        }
+        buf[..n].copy_from_slice(&self.data[self.pos..self.pos + n]);
+        self.pos += n;
+        Ok(n)
+    }
+}
+
+impl io::Read for &mut TransientReader<'_> {
+    fn read(&mut self, buf: &mut [u8]) -> io::Result<usize> {
+        let kind = self.kind;
+        self.step(buf).map_err(|_| io::Error::new(kind, "transient condition"))
+    }
+}
+
+impl embedded_io::ErrorType for &mut TransientReader<'_> {
+    type Error = EioError;
+}
+
+impl embedded_io::Read for &mut TransientReader<'_> {
+    fn read(&mut self, buf: &mut [u8]) -> Result<usize, EioError> {
+        self.step(buf).map_err(|_| EioError(embedded_io::ErrorKind::TimedOut))
+    }
+}
